@@ -109,9 +109,19 @@ def anchor_fns(facts):
     try:
         from . import faults
         pm = models.parser_model(facts)
-        out.update(v for v in faults.roles(facts, pm).values() if v)
+        rl = faults.roles(facts, pm)
+        out.update(v for v in rl.values() if v)
+        # the key predicate: the local predicate the key check refuses on
+        if rl.get("keycheck"):
+            for row in models.rejections(facts, rl["keycheck"]):
+                for t in row.get("triggers", []) + row.get("catoms", []):
+                    if t[0] == "pred" and t[1] in facts.bodies:
+                        out.add(t[1])
     except Exception:
         pass
+    for k, f in facts.fns.items():
+        if f.get("name") in ("is_valid_qualifier_name",):
+            out.add(k)
     try:
         from . import C08
         fk = C08.finish_key(facts)
